@@ -240,13 +240,23 @@ ALLOC_CORPUS = [
     'functie f() { print("{}", [1.5, "x", [2]]) } f(); f()',
     'functie pair(a, b) { [a, b] } stel p = pair("l", pair(1.5, "r")); functie n() { } n(); p',
     'stel s = "héé"; functie f() { s[1] } stel c = f(); stel d = f(); [c, d, s]',
+    # the pending value of the last expression statement is a root at EVERY collection point,
+    # also when a procedure (no value) returns, and also when the program then simply ends
+    '2.5 * 1.0; functie p() { stel t = 1 } stel r = p()',
+    '[1.5, "s"]; functie p() { } stel r = p(); stel q = 7.25 + 0.0',
+    '"abc"; functie p(n) { stel i = 0; zolang i < n { i += 1; stel w = [i] } } stel r = p(3)',
+    'functie p() { stel z = [0.5] } functie q() { p(); [2.5] } q(); stel a = p(); stel b = p()',
 ]
+# which of the corpus programs have a specified value (last statement is an expression statement)
+ALLOC_CORPUS_WITH_VALUE = [re.search(r"stel \w+ = [^;{}]*$", s.rstrip()) is None for s in ALLOC_CORPUS]
 
 
-def gen_alloc_programs(rng, n, max_depth=3):
+def gen_alloc_programs(rng, n, max_depth=3, with_value_out=None):
     out = []
     for _ in range(n):
-        p, st = genwf.gen_program(rng, max_depth=max_depth, alloc=0.6)
+        p, st = genwf.gen_program(rng, max_depth=max_depth, alloc=0.6, end_with_statement=0.35)
+        if with_value_out is not None:
+            with_value_out.append(bool(st.get("__ends_with_value", 1)))
         out.append(nlast.to_source(p))
     return out
 
